@@ -301,6 +301,36 @@ theorem sim_subTail (c : Ctx W HS) (lib : LibSpec c) (b : String) (hb : isUser b
   refine relX_stepM_pin (c.pinned vi k) (relM_lookup_pin (c.pinned vi k) vi k hvi2 hsci) ?_
   exact relX_stepM (c.pinned vi k) (relM_liftW (c.pinned vi k) _) fun _ => relX_done _ _
 
+/-- the rewriter leaves the targets of an assignment of the fragment alone -/
+theorem instrT_coreAssign (cfg : Cfg) (t : Target) (h : coreAssignT t = true) : instrT cfg t = t := by
+  cases t with
+  | name x => simp [instrT]
+  | tuple ts => simp only [coreAssignT] at h; simp [instrT, instrTL_core cfg ts h]
+  | list ts => simp only [coreAssignT] at h; simp [instrT, instrTL_core cfg ts h]
+  | starred t => simp [coreAssignT] at h
+  | attr e a =>
+    have he : instrE cfg e = e := by
+      cases e with
+      | name b => simp [instrE]
+      | _ => simp only [coreAssignT, Bool.and_eq_true] at h; exact instrE_simple cfg _ h.2
+    simp [instrT, he]
+  | sub e i =>
+    have hei : instrE cfg e = e ∧ instrE cfg i = i := by
+      cases e with
+      | name b =>
+        simp only [coreAssignT, Bool.and_eq_true] at h
+        exact ⟨by simp [instrE], instrE_simple cfg i h.2⟩
+      | _ =>
+        simp only [coreAssignT, Bool.and_eq_true] at h
+        exact ⟨instrE_simple cfg _ h.1.1.2, instrE_simple cfg i h.2⟩
+    simp [instrT, hei.1, hei.2]
+
+theorem instrTL_coreAssign (cfg : Cfg) : (ts : List Target) → coreAssignTL ts = true → instrTL cfg ts = ts
+  | [], _ => by simp [instrTL]
+  | t :: ts, h => by
+    simp only [coreAssignTL, Bool.and_eq_true] at h
+    simp [instrTL, instrT_coreAssign cfg t h.1, instrTL_coreAssign cfg ts h.2]
+
 theorem sim_assignOne (c : Ctx W HS) (lib : LibSpec c) (t : Target) (ht : coreAssignT t = true)
     (hs : ∀ x ∈ t.names ++ t.stores, c.scoped x) {e' : Expr} {m : M W HS Val}
     (he : RelM c (evalE c.envI e') m) (n : Nat) (hfresh : ∀ k, n ≤ k → c.pin (gensym k) = none) :
@@ -527,8 +557,8 @@ theorem simS (c : Ctx W HS) (lib : LibSpec c) (hpin : ∀ k, c.pin (gensym k) = 
       hs x (by simp only [Stmt.assigned, List.mem_append] at hx ⊢; exact Or.inl hx)
     match ts, h, hsts, chain with
     | [t], h, hsts, _ =>
-      simp only [instrS]
       have ht : coreAssignT t = true := by simpa [coreAssignTL] using h.1
+      simp only [instrS, instrT_coreAssign c.cfg t ht]
       have := sim_assignOne c lib t ht (fun x hx => hsts x (by
         simpa [Target.namesL, Target.storesL] using hx)) he n (fun k _ => hpin k)
       simpa only [execS, assignTs_single] using this
@@ -537,7 +567,7 @@ theorem simS (c : Ctx W HS) (lib : LibSpec c) (hpin : ∀ k, c.pin (gensym k) = 
       have := chain (t1 :: t2 :: rest) (by simpa using h.1) hsts
       rcases hch : assignChain c.cfg (.name (gensym n)) (t1 :: t2 :: rest) (n + 1) with ⟨ss, n'⟩
       rw [hch] at this
-      simp only [instrS, hch, execS]
+      simp only [instrS, instrTL_coreAssign c.cfg (t1 :: t2 :: rest) (by simpa using h.1), hch, execS]
       exact this
   | .augassign t op v, h, hs, n => by
     simp only [coreS, Bool.and_eq_true] at h
@@ -604,13 +634,13 @@ theorem simS (c : Ctx W HS) (lib : LibSpec c) (hpin : ∀ k, c.pin (gensym k) = 
       cases v with
       | some e =>
         have he := simE c lib e (by simpa [coreOptE] using h.2) (fun x hx => hs x (Or.inr (by simpa [optStores] using hx)))
-        simp only [instrS, instrOpt, mkInteraction, Option.getD_some, Option.isNone_some, execB_single]
+        simp only [instrS, instrT, instrOpt, mkInteraction, Option.getD_some, Option.isNone_some, execB_single]
         have := sim_assignName c x hu hsc (some ann) he
         simpa only [execS] using this
       | none =>
         obtain hab := lib.absent
         have lA := lookup_lib c lib nAbsent .absent (by simp) hab
-        simp only [instrS, instrOpt, mkInteraction, Option.getD_none, Option.isNone_none, execB_single, execS,
+        simp only [instrS, instrT, instrOpt, mkInteraction, Option.getD_none, Option.isNone_none, execB_single, execS,
           eval_interactE, evalE, lA, pure_bind_M, maybeInteract, Bool.true_or, if_true, assignTs_single, assignT,
           hook_envI, stepM_bind, stepM_pure, Ctx.envR, annValOpt]
         refine relX_stepM c (relM_interactSem c _ _ _ _ _) fun r => ?_
@@ -686,8 +716,8 @@ theorem simS (c : Ctx W HS) (lib : LibSpec c) (hpin : ∀ k, c.pin (gensym k) = 
     rw [hb] at ihb; rw [ho] at iho
     have hn : ∀ x ∈ t.names, isUser x = true ∧ c.scoped x := fun x hx =>
       ⟨coreT_names_user t h.1.1.1 x hx, hs x (Or.inl (Or.inl (Or.inl (Or.inl hx))))⟩
-    simp only [instrS, hb, ho, execB_single, execS, hookMetas_envI, postBind_envI, pure_bind_M, stepM_pure,
-      tryFinally_skip]
+    simp only [instrS, instrT_core c.cfg t h.1.1.1, hb, ho, execB_single, execS, hookMetas_envI, postBind_envI,
+      pure_bind_M, stepM_pure, tryFinally_skip]
     refine relX_stepM c ?_ fun items => ?_
     · exact relM_bind c (simE c lib it h.1.1.2 (fun x hx => hs x (Or.inl (Or.inl (Or.inr hx))))) fun v =>
         relM_liftW c _
@@ -740,7 +770,8 @@ theorem simS (c : Ctx W HS) (lib : LibSpec c) (hpin : ∀ k, c.pin (gensym k) = 
         have ht : coreT t = true := by simpa [coreOptT] using h.1.2
         have hn : ∀ x ∈ t.names, isUser x = true ∧ c.scoped x := fun x hx =>
           ⟨coreT_names_user t ht x hx, hs x (Or.inl (Or.inr (by simp [hx])))⟩
-        simp only [postBind_envI, bind_pure_M, stepM_bind, execB_append, genInteractions_names]
+        simp only [Option.map_some, instrT_core c.cfg t ht, postBind_envI, bind_pure_M, stepM_bind, execB_append,
+          genInteractions_names]
         refine relX_stepM c (simStoreT c lib t ht (fun x hx => hs x (Or.inl (Or.inr (by simpa using hx)))) v) fun _ => ?_
         rw [stepM_as_seq (postBind c.envR t.names)]
         exact relX_seqX c (sim_genNames c _ hn) ihb
